@@ -2,6 +2,7 @@ package main
 
 import (
 	"fmt"
+	"go/token"
 	"go/types"
 	"sort"
 	"strings"
@@ -304,7 +305,7 @@ func (x *Exec) frameGoals(s *State, c *Contract) {
 			continue
 		}
 		r := "r!fr"
-		t := Term{fmt.Sprintf("(forall ((%s Int)) (=> (and (< 0 %s) (<= %s %s)) (= (select %s %s) (select %s %s))))", r, r, r, s.oldAlloc.S, cur.S, r, old.S, r), "Bool"}
+		t := Term{fmt.Sprintf("(forall ((%s Int)) (! (=> (and (< 0 %s) (<= %s %s)) (= (select %s %s) (select %s %s))) :pattern ((select %s %s)) :qid frame))", r, r, r, s.oldAlloc.S, cur.S, r, old.S, r, cur.S, r), "Bool"}
 		s.goal(x.entryKey+"#frame", "frame", nil, t, c.Where, "not in modifies clause: "+n)
 	}
 	var gn []string
@@ -442,7 +443,7 @@ func (x *Exec) frameInvariants(s *State, li *loopInfo) []struct {
 			continue
 		}
 		r := "r!fr"
-		t := Term{fmt.Sprintf("(forall ((%s Int)) (=> (and (< 0 %s) (<= %s %s)) (= (select %s %s) (select %s %s))))", r, r, r, s.oldAlloc.S, cur.S, r, old.S, r), "Bool"}
+		t := Term{fmt.Sprintf("(forall ((%s Int)) (! (=> (and (< 0 %s) (<= %s %s)) (= (select %s %s) (select %s %s))) :pattern ((select %s %s)) :qid loopframe))", r, r, r, s.oldAlloc.S, cur.S, r, old.S, r, cur.S, r), "Bool"}
 		out = append(out, struct {
 			name string
 			t    Term
@@ -451,7 +452,44 @@ func (x *Exec) frameInvariants(s *State, li *loopInfo) []struct {
 	return out
 }
 
+// rangeBound: for `for i := range xs` loops the index never exceeds the
+// length that was read before the loop ($i <= len).
+func (x *Exec) rangeBound(s *State, li *loopInfo) (Term, bool) {
+	var phi *ssa.Phi
+	for _, in := range li.header.Instrs {
+		if p, ok := in.(*ssa.Phi); ok && p.Comment == "rangeindex" {
+			phi = p
+		}
+	}
+	if phi == nil {
+		return Term{}, false
+	}
+	for _, in := range li.header.Instrs {
+		cmp, ok := in.(*ssa.BinOp)
+		if !ok || cmp.Op != token.LSS {
+			continue
+		}
+		inc, ok := cmp.X.(*ssa.BinOp)
+		if !ok || inc.X != phi {
+			continue
+		}
+		if yi, ok := cmp.Y.(ssa.Instruction); ok && li.body[yi.Block()] {
+			continue
+		}
+		pv, ok1 := s.frame.regs[phi].(Term)
+		yv, ok2 := s.get(cmp.Y).(Term)
+		if !ok1 || !ok2 {
+			return Term{}, false
+		}
+		return le(add(pv, intLit(1)), yv), true
+	}
+	return Term{}, false
+}
+
 func (x *Exec) checkInvariants(s *State, li *loopInfo, kind string) {
+	if rb, ok := x.rangeBound(s, li); ok {
+		s.goal(fmt.Sprintf("%s#%s:%s:range-bound", x.entryKey, kind, strings.ReplaceAll(li.key, " ", "_")), kind, nil, rb, "", "the range index stays within the length read before the loop")
+	}
 	for _, fi := range x.frameInvariants(s, li) {
 		s.goal(fmt.Sprintf("%s#%s:%s:frame", x.entryKey, kind, strings.ReplaceAll(li.key, " ", "_")), kind, nil, fi.t, "", "loop leaves pre-existing objects untouched in "+fi.name)
 	}
@@ -550,6 +588,9 @@ func (x *Exec) loopEntry(s *State, li *loopInfo, from *ssa.BasicBlock) {
 		}
 	}
 	// assume the invariants
+	if rb, ok := x.rangeBound(s, li); ok {
+		s.assume(rb)
+	}
 	for _, fi := range x.frameInvariants(s, li) {
 		s.assume(fi.t)
 	}
